@@ -75,6 +75,7 @@ def catalogue_case(draw, n_times):
     m = _mirror(name)
     theta = [S.sig(draw(S.fl(*pbox[q], 3)), 4) if pbox[q][0] != pbox[q][1] else float(pbox[q][0]) for q in m["params"]]
     x0 = [S.sig(draw(S.fl(lo, hi, 3)), 4) if lo != hi else float(lo) for lo, hi in xbox]
+    x0 = [v if abs(v) >= 1e-3 else 0.0 for v in x0]           # no denormal / vanishing initial values
     n = draw(st.integers(*n_times))
     step = draw(S.fl(0.3, 1.0, 2)) * tmax / n
     rel = [S.sig(step * (i + 1), 5) for i in range(n)]
